@@ -882,6 +882,7 @@ static Node *declaration(Token **rest, Token *tok, Type *basety, VarAttr *attr) 
     if (attr && attr->is_static) {
       // static local variable
       Obj *var = new_anon_gvar(ty);
+      var->owner = current_fn;
       var->is_tls = attr->is_tls;
       if (attr->align)
         var->align = attr->align;
